@@ -58,6 +58,15 @@ CHECKS = {
             'Trusted: rv/models/calendar.py; XSD 1.0 BCE leap years, mixed timezone presence without implicit timezone and '
             'overflow beyond the implementation range are undecided.',
             'DESIGN.md section 4 (C11)'),
+    'C12': ('exploration',
+            'differential runtime monitor: reference XSD/XPath regex parser + backtracking matcher vs re.compile(translate_pattern(P)); engine-only consistency of matches/replace/tokenize/analyze-string',
+            'Generated patterns (branches, quantifiers, groups, back-references incl. multi-digit ones, classes with ranges / negation / '
+            'subtraction / multi-character and category escapes, flags s m i x q, XSD 1.0/1.1, XPath and XSD anchoring modes) are translated by '
+            'the real translate_pattern and matched with Python re on probe subjects; validity and match/no-match are compared with a three-valued '
+            'reference (valid / invalid / undecided). fn:matches/replace/tokenize/analyze-string are checked against the reference and against each other.',
+            'Trusted: rv/models/xsdregex.py (cross-checked against Python re on the shared sub-language), unicodedata; the i flag only on ASCII '
+            'alphabets; XSD 1.0 lone braces, inner hyphens, quantified anchors are undecided; subjects are probes, not all strings.',
+            'DESIGN.md section 4 (C12)'),
     'C13': ('exploration',
             'runtime shadow-model monitor over operation histories + exhaustive table comparison with unicodedata',
             'Every UnicodeSubset/CharacterClass state reached by random operation histories is compared, after every '
